@@ -305,6 +305,7 @@ func (c *Caller) InvokeContext(ctx context.Context, id string, name string, args
 		}
 	}
 	calls.Append(newCall(index, name, args))
+	verifYield("caller.appended", index)
 	var results *resultMap
 	if rm, ok := c.results.Get(id); ok {
 		results = rm.(*resultMap)
